@@ -98,3 +98,17 @@ func VerifOutgoingTCPTransport(port uint16, persistency Persistency, mtu int, on
 	s.SetMTU(mtu)
 	return t.runReceive, t.Close, nil
 }
+
+// VerifOutgoingTCPTransportSend is VerifOutgoingTCPTransport that also returns the transport's sendFrame.
+func VerifOutgoingTCPTransportSend(port uint16, persistency Persistency, mtu int, onFrame func([]byte)) (recv func(), send func([]byte), closeT func(), err error) {
+	t, err := MakeUnicastTCPTransport(defn.MakeTCPFaceURI(4, "127.0.0.1", port), nil, persistency)
+	if err != nil {
+		return nil, nil, nil, err
+	}
+	s := &verifFrameSink{onFrame: onFrame}
+	s.makeLinkServiceBase()
+	s.transport = t
+	t.setLinkService(s)
+	s.SetMTU(mtu)
+	return t.runReceive, t.sendFrame, t.Close, nil
+}
